@@ -22,6 +22,11 @@ from report import site_of
 from c01 import adts_read
 
 
+# what the demuxer reports for a sample when the optional table is absent (R-DEFAULT requires exactly these constants;
+# C01 R6 requires the muxer to leave the table absent only for samples with these values)
+ABSENT_DEFAULT = {"ctts": 0, "stss": 1}
+
+
 def opt_field_switches(body, field):
     """(switch block, none_target, some_target) for switches on the discriminant of a place ending in .<field>"""
     out = []
@@ -88,7 +93,7 @@ def run(fx, chk, tier):
             return chk.finish("other", "anchors missing")
 
     # ---------------- R-DEFAULT
-    for fn, field, want, label in ((fro, "ctts", 0, "rendering offset 0"), (fsy, "stss", 1, "sync = true")):
+    for fn, field, want, label in ((fro, "ctts", ABSENT_DEFAULT["ctts"], "rendering offset 0"), (fsy, "stss", ABSENT_DEFAULT["stss"], "sync = true")):
         body = body_of(fn)
         sw = opt_field_switches(body, field)
         if not chk.anchor("R-DEFAULT", "test of stbl.%s in %s" % (field, fn["name"]), sw):
